@@ -111,6 +111,23 @@ Theorem c20_history : forall t0 ops u, monotone t0 ops ->
 Proof. exact history. Qed.
 Print Assumptions c20_history.
 
+
+(* the recorder's event loop (cached read-out, save timer): from a fresh start and for every
+   sequence of events, hourly expiries, history requests and save-timer firings, a history request
+   is answered with the history as it is now, and whenever no save is pending the file holds the
+   current history (or nothing changed since the start) — so a restart loses nothing that was
+   recorded before the last save window closed *)
+Theorem c20_loop_request : forall now file ops,
+  let st := lrun ops (l_start now file) in snd (l_get st) = l_map st.
+Proof. exact loop_request_current. Qed.
+Print Assumptions c20_loop_request.
+
+Theorem c20_loop_saved : forall now file ops,
+  let st := lrun ops (l_start now file) in
+  l_armed st = false -> l_file st = Some (l_map st) \/ l_map st = l_map (l_start now file).
+Proof. exact loop_saved. Qed.
+Print Assumptions c20_loop_saved.
+
 (* ---------------------------------------------------------------- what the code did before the fixes *)
 
 (* the cloud-role path signed and answered without publishing *)
@@ -151,6 +168,12 @@ Proof. vm_compute. reflexivity. Qed.
 Example c20_ex_blocking_would_block :
   fst (publish_with blocking_send (ECert 1 [7%N]) [mkChan 1 true [EWebLogin [1%N]] []]) = [Blocked].
 Proof. vm_compute. reflexivity. Qed.
+
+Example c20_ex_loop :
+  let u := [97%N] in
+  let st := lrun [LRec (RWeb 10 u); LRequest; LRec (RWeb 11 u); LSave] (l_start 5 None) in
+  l_armed st = false /\ l_file st = Some [(u, [mkEv 11 0 0 [] false true false 0; mkEv 10 0 0 [] false true false 0])].
+Proof. vm_compute. split; reflexivity. Qed.
 
 Example c20_ex_history :
   let u := [97%N] in
